@@ -63,13 +63,13 @@ def cases(tier, seed):
         return o
 
     for rep in range(1 if tier == "quick" else 30):
-        for spec in workload.lattice_cases(seed * 43 + rep, opts_fn=opts, p={"damage_prob": 0.5, "dense_prob": 1.0}):
+        for spec in workload.lattice_cases(seed * 43 + rep, opts_fn=opts, p={"damage_prob": 0.5, "carboxyl_asym_prob": 0.4, "dense_prob": 1.0}):
             spec["kind"] = "run"
             spec["p"]["dense_prob"] = 1.0
             out.append(spec)
     n = 150 if tier == "quick" else 18000
     for spec in workload.standard_cases(tier, seed, n, n, opts_fn=opts, frag_share=0.35,
-                                        p={"variant_prob": 0.1, "na_prob": 0.1, "waters": [0, 2, 5], "damage_prob": 0.4,
+                                        p={"variant_prob": 0.1, "na_prob": 0.1, "waters": [0, 2, 5], "damage_prob": 0.4, "carboxyl_asym_prob": 0.4,
                                            "dense_prob": 0.9, "pool": None, "crowd_prob": 0.35}):
         spec["kind"] = "run"
         out.append(spec)
